@@ -38,6 +38,28 @@ func c01(r *ev.Run, replay string) {
 			}
 		}
 	}
+	// Before anything runs concurrently: one integer-edge pool per system, one
+	// system after the other, so that a system's first look at a string comes
+	// before any other system has seen it (step (iv) of c01Pool then lets the
+	// others see it and compares again). NuGet, whose reading of numbers is
+	// the narrowest, goes first.
+	{
+		order := gen.OrderSystems()
+		sort.SliceStable(order, func(i, j int) bool { return order[i].Name == "NuGet" && order[j].Name != "NuGet" })
+		for _, sg := range order {
+			sg := sg
+			rng := r.Rand("isolated/" + sg.Name)
+			pool := gen.ExtremeFamilies(rng, sg.Gen, 120, func(s string) bool {
+				if sg.Sys == semver.Maven && !gen.MavenInDomain(s) {
+					return false
+				}
+				_, err := sg.Sys.Parse(s)
+				return err == nil
+			})
+			c01Pool(r, sg, pool, rng)
+			r.Count("isolated_pools", 1)
+		}
+	}
 	n := r.N(300, 600)
 	shards := r.N(6, 48)
 	var wg sync.WaitGroup
@@ -268,6 +290,43 @@ func c01Pool(r *ev.Run, sg gen.SysGen, pool []string, rng *rand.Rand) {
 	// (iii) a burst of other operations on the same objects, then recompute.
 	c01Burst(sg, vs, pool, rng)
 	same("after-burst", matrix(vs))
+	// (iv) the same strings go through every other system's parser and
+	// comparison (what they make of them is their business), then this
+	// system's matrix is recomputed on the same objects and on fresh ones:
+	// an earlier call in another system is history too.
+	for _, other := range gen.OrderSystems() {
+		if other.Sys == sg.Sys {
+			continue
+		}
+		var ov []*semver.Version
+		for _, s := range pool {
+			if v, err := other.Sys.Parse(s); err == nil {
+				ov = append(ov, v)
+			}
+		}
+		for i := range ov {
+			ov[i].Compare(ov[(i+1)%len(ov)])
+			ov[i].Compare(ov[(i*7+3)%len(ov)])
+		}
+		r.Count("foreign_history_versions:"+sg.Name, int64(len(ov)))
+	}
+	same("after-other-systems", matrix(vs))
+	{
+		fresh := make([]*semver.Version, n)
+		ok := true
+		for i, s := range pool {
+			v, err := sg.Sys.Parse(s)
+			if err != nil {
+				viol("parse-unstable", fmt.Sprintf("%q parsed before and fails after the other systems parsed it: %v", s, err), s)
+				ok = false
+				break
+			}
+			fresh[i] = v
+		}
+		if ok {
+			same("fresh-after-other-systems", matrix(fresh))
+		}
+	}
 	r.Eval(3 * N * N)
 
 	// Build metadata.
